@@ -6,4 +6,6 @@ for p in $(.venv/bin/python -c "import sys; sys.path.insert(0,'/verif'); from sp
   out=$(./check $p 2>&1); rc=$?
   echo "$p exit=$rc $(echo "$out" | grep -E "obligations discharged|bounded" | tail -1 | cut -c1-150)"
   [ $rc -ne 0 ] && echo "$out" | grep -vE "obligations discharged" | head -5
+  # on the unchanged tree nothing may be undecided: a FALLBACK here is a regression of the machinery itself
+  echo "$out" | grep -E "^(UNDECIDED|FALLBACK)" | head -3 | sed 's/^/   !! /'
 done
